@@ -79,7 +79,8 @@ fn gen_content(t: &mut Tape, labels: &mut Vec<&'static str>) -> Vec<u8> {
         b"$Id: abc $",
         b"$Id: foreign id, v 1.2 $",
         b"$Id: unterminated",
-        b"$Id:$",
+        // not "$Id:$": git's ident_to_worktree() computes a negative length for it (memchr over SIZE_MAX bytes) and can crash
+        b"$Id:y$",
         b"$Id:x$",
         b"$Id: $",
         b"$Id::$",
@@ -247,6 +248,7 @@ pub fn main() {
         "the oracle is {}: hash-object -w --stdin-paths / update-index --add for to-git, checkout-index --prefix for to-worktree",
         Git::version()
     ));
+    ck.assume("the marker '$Id:$' (nothing between ':' and '$') is not generated: git's ident_to_worktree() calls memchr() with a negative length for it and can crash (SIGSEGV observed), so there is no oracle; where `git checkout-index` (streaming filters) and `git cat-file --filters` (buffer filters) disagree with each other, agreement with either is accepted");
     ck.assume("the repository is opened with gix::open::Options::isolated() (only the repository-local configuration), git runs with system/global configuration disabled");
 
     ck.sub("world", SubCfg::new(800, 20_000).max_len(3000).max_shrink(16), |t, c| {
@@ -568,17 +570,18 @@ pub fn main() {
             match &gix_to_wt[i] {
                 Ok(g) => {
                     // Ok(()) = equal, Err(sig) = a classified deviation (sig non-empty) or an unknown difference
-                    let mut compare = |reference: &[u8]| -> Result<(), &'static str> {
-                        if g.as_slice() == reference {
-                            return Ok(());
+                    // the known ident deviations between gitoxide's output `g` and git's (the blob id is known, so a wrong id stays
+                    // unclassified): Some("") = equal, Some(sig) = classified, None = unknown
+                    let ident_class = |g: &[u8], reference: &[u8]| -> Option<&'static str> {
+                        if g == reference {
+                            return Some("");
                         }
-                        // the two known ident deviations (the blob id is known, so a wrong id stays unclassified)
                         let with_space = g.replace(format!("$Id: {}$", raw_ids[i]), format!("$Id: {} $", raw_ids[i]));
                         if with_space == reference {
-                            return Err("ident-expansion-lacks-space");
+                            return Some("ident-expansion-lacks-space");
                         }
                         if git_reexpand(&with_space, &raw_ids[i]) == reference {
-                            return Err("ident-keeps-stale-expansion");
+                            return Some("ident-keeps-stale-expansion");
                         }
                         // stale expansions can also change where the next marker starts ("$Id: unterminated$Id$"). Still the same
                         // deviation if, line endings aside, git did what git's algorithm does to the blob, gitoxide did what its
@@ -606,10 +609,20 @@ pub fn main() {
                             && strip_cr(g) == strip_cr(&gix_algorithm)
                             && eols(reference) == eols(g)
                         {
-                            return Err("ident-keeps-stale-expansion");
+                            return Some("ident-keeps-stale-expansion");
+                        }
+                        None
+                    };
+                    // Ok(()) = equal, Err(sig) = a classified deviation (sig non-empty) or an unknown difference
+                    let mut compare = |reference: &[u8]| -> Result<(), &'static str> {
+                        match ident_class(g, reference) {
+                            Some("") => return Ok(()),
+                            Some(sig) => return Err(sig),
+                            None => {}
                         }
                         if f.content.last() == Some(&0x1a) {
-                            // git does not count a trailing ^Z as non-printable: would gitoxide agree without it?
+                            // git does not count a trailing ^Z as non-printable: would gitoxide agree (up to the ident deviations)
+                            // without it?
                             let name: BString = f.name.as_str().into();
                             let cut = &f.content[..f.content.len() - 1];
                             if let Ok(mut o) =
@@ -618,7 +631,10 @@ pub fn main() {
                                 let mut v = Vec::new();
                                 if o.read_to_end(&mut v).is_ok() {
                                     v.push(0x1a);
-                                    if v == reference {
+                                    // ids in `v` are those of the shortened blob
+                                    let cut_id = gix_object::compute_hash(gix_hash::Kind::Sha1, gix_object::Kind::Blob, cut).to_hex().to_string();
+                                    let v = v.replace(cut_id.as_str(), raw_ids[i].as_str());
+                                    if ident_class(&v, reference).is_some() {
                                         return Err("trailing-ctrl-z-counts-as-non-printable");
                                     }
                                 }
